@@ -220,3 +220,144 @@ def rect_bbox(matrix, size=RECT_SIZE):
     xs = [e + a * dx + c * dy for dx in (0, w) for dy in (0, h)]
     ys = [f + b * dx + d * dy for dx in (0, w) for dy in (0, h)]
     return (min(xs), min(ys), max(xs), max(ys))
+
+
+# ----------------------------------------------------------------- deep trees
+# Everything below is iterative: the reference must not depend on the interpreter's recursion limit.
+DEEP_ATTR_VALUES = {
+    "Resources": ("A", "B"),
+    "MediaBox": ((0, 0, 200, 100), (10, 20, 210, 120)),
+    "CropBox": ((5, 5, 50, 50), (20, 30, 100, 90)),
+    "Rotate": (180, 0, 360),  # text stays on one line, so a page's label survives layout analysis
+}
+
+
+def deep_chain(d: int, variant: str, order: str, attrmode: str, cycle: bool):
+    """A chain of d nested /Pages nodes (node k is the only /Pages child of node k-1).
+
+    variant "bottom": one /Page below the deepest node.  variant "every": one /Page hanging off every level,
+    listed before ("page-first") or after ("deep-first") the deeper /Pages node in Kids.
+    attrmode "root": the four inheritable attributes only on the root; "every100": on every level k with
+    k % 100 == 0, values cycling with k // 100 (the nearest such ancestor wins).
+    cycle: the deepest node's Kids additionally point back at the root and at the node in the middle."""
+    nodes: List[Dict[str, Any]] = [{"kind": "Pages", "parent": (k - 1 if k else None), "kids": []} for k in range(d)]
+    attrs: List[Dict[str, Any]] = [{} for _ in range(d)]
+    for k in range(d):
+        if k + 1 < d:
+            nodes[k]["kids"].append(k + 1)
+    for k in range(d):
+        if variant == "every" or k == d - 1:
+            nodes.append({"kind": "Page", "parent": k, "kids": []})
+            attrs.append({})
+            i = len(nodes) - 1
+            if order == "page-first":
+                nodes[k]["kids"].insert(0, i)
+            else:
+                nodes[k]["kids"].append(i)
+    if cycle:
+        nodes[d - 1]["kids"] += [0, d // 2]
+    for k in range(d):
+        if k == 0 or (attrmode == "every100" and k % 100 == 0):
+            j = k // 100
+            for key, vals in DEEP_ATTR_VALUES.items():
+                attrs[k][key] = vals[j % len(vals)]
+    return nodes, attrs
+
+
+def walk_iter(nodes, attrs):
+    """Iterative form of ``walk(nodes, attrs, "spec")``: depth-first Kids order, nearest defining ancestor, every node
+    visited at most once (first encounter).  Returns (pages, judged_full)."""
+    out: List[Tuple[int, Dict[str, Any]]] = []
+    visited = set()
+    ambiguous = False
+    stack: List[Tuple[int, Dict[str, Any], Optional[int]]] = [(0, {}, None)]
+    while stack:
+        i, inh, via = stack.pop()
+        if i in visited:
+            continue
+        if via is not None and nodes[i]["parent"] != via:
+            ambiguous = True
+        visited.add(i)
+        own = {k: v for k, v in (attrs[i] or {}).items() if v is not None}
+        eff = {**inh, **own} if own else inh
+        if nodes[i]["kind"] == "Page":
+            out.append((i, {k: eff.get(k) for k in INHERITABLE}))
+            continue
+        for c in reversed(nodes[i]["kids"]):
+            stack.append((c, eff, i))
+    return out, not ambiguous
+
+
+def deep_label(k: int) -> str:
+    """Three capital letters XYZ with X < Z, distinct per k < 8450: a label read right-to-left (Rotate 180) can be told
+    from every other label (see canon_label)."""
+    pairs = [(x, z) for x in range(26) for z in range(x + 1, 26)]
+    x, z = pairs[k // 26]
+    return chr(65 + x) + chr(65 + k % 26) + chr(65 + z)
+
+
+def canon_label(s: str) -> str:
+    return min(s, s[::-1])
+
+
+def build_deep(nodes, attrs) -> bytes:
+    """Serialise a (possibly very deep) tree; all values direct; page k (in reference order) shows deep_label(k)."""
+    d = Doc()
+    d.add(widths_font(FONT_NAMES["A"], 65, [500] * 26), num=FONT_A)
+    d.add(widths_font(FONT_NAMES["B"], 65, [250] * 26), num=FONT_B)
+    n = len(nodes)
+    order, _ = walk_iter(nodes, attrs)
+    seq = {i: k for k, (i, _) in enumerate(order)}
+    # /Count = leaf pages below, ignoring entries that do not point at a node's own child (cycle entries)
+    count = [1 if nd["kind"] == "Page" else 0 for nd in nodes]
+    for i in sorted(range(n), key=lambda i: -_depth_iter(nodes, i)):
+        p = nodes[i]["parent"]
+        if p is not None:
+            count[p] += count[i]
+    for i, nd in enumerate(nodes):
+        obj: Dict[str, Any] = {"Type": N(nd["kind"])}
+        if nd["parent"] is not None:
+            obj["Parent"] = Ref(NODE_BASE + nd["parent"])
+        if nd["kind"] == "Pages":
+            obj["Kids"] = [Ref(NODE_BASE + c) for c in nd["kids"]]
+            obj["Count"] = count[i]
+        else:
+            k = seq[i]
+            body = b"BT /F1 8 Tf 1 0 0 1 30 40 Tm (%s) Tj ET" % deep_label(k).encode()
+            d.add(Stream({}, body), num=NODE_BASE + n + i)
+            obj["Contents"] = Ref(NODE_BASE + n + i)
+        for k2 in INHERITABLE:
+            tok = (attrs[i] or {}).get(k2)
+            if tok is None:
+                continue
+            if k2 == "Resources":
+                obj[k2] = {"Font": {"F1": Ref(FONT_A if tok == "A" else FONT_B)}, "ProcSet": [N("PDF"), N("Text")]}
+            elif k2 in ("MediaBox", "CropBox"):
+                obj[k2] = list(tok)
+            else:
+                obj[k2] = tok
+        d.add(obj, num=NODE_BASE + i)
+    d.add({"Type": N("Catalog"), "Pages": Ref(NODE_BASE)}, num=CATALOG)
+    return d.write(Ref(CATALOG))
+
+
+_DEPTH_CACHE: Dict[int, List[int]] = {}
+
+
+def _depth_iter(nodes, i) -> int:
+    key = id(nodes)
+    if key not in _DEPTH_CACHE or len(_DEPTH_CACHE[key]) != len(nodes):
+        _DEPTH_CACHE.clear()
+        dep = [0] * len(nodes)
+        # parents precede children in deep_chain's numbering only for /Pages nodes; compute by following parents
+        for j in range(len(nodes)):
+            x, c = j, 0
+            p = nodes[j]["parent"]
+            dep[j] = (dep[p] + 1) if (p is not None and p < j) else None  # type: ignore[assignment]
+            if dep[j] is None:
+                while nodes[x]["parent"] is not None:
+                    x = nodes[x]["parent"]
+                    c += 1
+                dep[j] = c
+        _DEPTH_CACHE[key] = dep
+    return _DEPTH_CACHE[key][i]
